@@ -136,6 +136,7 @@ class Executor:
         self.n_replay = len(prefix)
         self.di = 0
         self.pc = []
+        self.facts = []          # definitional facts about fresh symbols (hold on every path, never truncated by guards)
         self.heap = {}
         self.prov = {}
         self.next_ref = 0
@@ -162,6 +163,11 @@ class Executor:
         except PathEnd:
             pass
 
+    def fact(self, *fs):
+        for f in fs:
+            if not any(f.eq(q) for q in self.facts):
+                self.facts.append(f)
+
     def emitting(self):
         return self.di >= self.n_replay
 
@@ -169,6 +175,7 @@ class Executor:
         s = z3.Solver()
         s.set("rlimit", 200_000)
         s.add(*self.pc)
+        s.add(*self.facts)
         s.add(cond)
         return s.check() != z3.unsat
 
@@ -208,7 +215,7 @@ class Executor:
         name = f"{self.c.target}#{kind}{('.' + label) if label else ''}@L{line}"
         if self.variant:
             name += f"[{self.variant}]"
-        self.obls.append(Obligation(name, kind, list(self.pc), goal, line, self.c.target, self.variant,
+        self.obls.append(Obligation(name, kind, list(self.pc) + list(self.facts), goal, line, self.c.target, self.variant,
                                     tuple(self.prefix[: self.di]), self.inputs, self.heap0, note))
 
     # ------------------------------------------------------------------ heap
@@ -419,8 +426,8 @@ class Executor:
     # ------------------------------------------------------------------ spec evaluation
     def spec(self, text, env, extra=None):
         node = ast.parse(text, mode="eval").body
-        e = dict(env)
-        e.update(self.ghost)
+        e = dict(self.ghost)
+        e.update(env)
         if extra:
             e.update(extra)
         saved = self.in_spec if hasattr(self, "in_spec") else False
@@ -433,8 +440,8 @@ class Executor:
 
     def spec_val(self, text, env, extra=None):
         node = ast.parse(text, mode="eval").body
-        e = dict(env)
-        e.update(self.ghost)
+        e = dict(self.ghost)
+        e.update(env)
         if extra:
             e.update(extra)
         saved = getattr(self, "in_spec", False)
@@ -478,6 +485,8 @@ class Executor:
             return z3.BoolVal(e.id == "True")
         if getattr(self, "in_spec", False) and e.id in self.c.defs:
             return self.c.defs[e.id]
+        if e.id in ("np", "math", "random", "numpy"):
+            return Opaque("module:" + ("np" if e.id == "numpy" else e.id))
         if e.id in self.ix.classes:
             return Opaque("class:" + e.id)
         if e.id in ("int", "float", "bool", "str", "list", "dict", "tuple", "complex", "set"):
@@ -806,20 +815,18 @@ class Executor:
                     memo[key] = (z3.RealVal(Fraction(a, b)), [])
                     return memo[key][0]
             s = fresh("sqrt", R)
-            memo[key] = (s, [s >= 0, s * s == x])
+            memo[key] = (s, [z3.Implies(x >= 0, z3.And(s >= 0, s * s == x))])
         s, facts = memo[key]
-        for f in facts:
-            if not any(f.eq(p) for p in self.pc):
-                self.pc.append(f)
+        self.fact(*facts)
         return s
 
     def pow10(self, x):
         f = z3.Function("pow10", R, R)
         self.assumptions.add("A1.pow10: 10**x is a positive strictly monotone function with 10**0=1, 10**(x+y)=10**x*10**y; log10 its inverse")
         v = f(x)
-        self.pc += [v > 0, z3.Implies(x == 0, v == 1), z3.Implies(x > 0, v > 1), z3.Implies(x < 0, v < 1)]
+        self.fact(v > 0, z3.Implies(x == 0, v == 1), z3.Implies(x > 0, v > 1), z3.Implies(x < 0, v < 1))
         lg = z3.Function("log10", R, R)
-        self.pc.append(lg(v) == x)
+        self.fact(lg(v) == x)
         return v
 
     def seq_binop(self, op, l, r, node):
@@ -865,7 +872,7 @@ class Executor:
         t = fresh("t")
         arr = fresh("cat", z3.ArraySort(I, sort_of(a.es)))
         ln = a.len + b.len
-        self.pc.append(z3.ForAll([t], z3.And(
+        self.fact(z3.ForAll([t], z3.And(
             z3.Implies(z3.And(0 <= t, t < a.len), z3.Select(arr, t) == z3.Select(a.arr, t)),
             z3.Implies(z3.And(a.len <= t, t < ln), z3.Select(arr, t) == z3.Select(b.arr, t - a.len)))))
         return AList(ln, arr, a.es)
@@ -915,9 +922,7 @@ class Executor:
         p = z3.Real("pi")
         self.assumptions.add("A1.pi: pi is a real constant with 3.14159 < pi < 3.1416")
         f = (p > z3.RealVal("3.14159"), p < z3.RealVal("3.1416"))
-        for x in f:
-            if not any(x.eq(q) for q in self.pc):
-                self.pc.append(x)
+        self.fact(*f)
         return p
 
     # ---- subscripts
@@ -1009,8 +1014,8 @@ class Executor:
             lo2 = z3.If(lo > hi2, hi2, lo)
             t = fresh("t")
             arr = fresh("slice", z3.ArraySort(I, sort_of(h.es)))
-            self.pc.append(z3.ForAll([t], z3.Implies(z3.And(0 <= t, t < hi2 - lo2),
-                                                     z3.Select(arr, t) == z3.Select(h.arr, t + lo2))))
+            self.fact(z3.ForAll([t], z3.Implies(z3.And(0 <= t, t < hi2 - lo2),
+                                                   z3.Select(arr, t) == z3.Select(h.arr, t + lo2))))
             return self.alloc(AList(hi2 - lo2, arr, h.es))
         raise Unsupported("slice")
 
@@ -1063,7 +1068,7 @@ class Executor:
             raise Unsupported("comprehension element not scalar")
         es = "real" if is_real(val) else ("bool" if is_bool(val) else "int")
         arr = fresh("comp", z3.ArraySort(I, sort_of(es)))
-        self.pc.append(z3.ForAll([t], z3.Implies(z3.And(0 <= t, t < seq.n), z3.Select(arr, t) == val)))
+        self.fact(z3.ForAll([t], z3.Implies(z3.And(0 <= t, t < seq.n), z3.Select(arr, t) == val)))
         return self.alloc(AList(seq.n, arr, es))
 
     def ev_GeneratorExp(self, e, env):
